@@ -228,6 +228,18 @@ class Engine:
                 if r is not None:
                     return r
             return a.t == b.t
+        if not identity and (isinstance(a, VObj) and a.kind == "dict" and isinstance(b, VConc) and b.py == {}
+                             or isinstance(b, VObj) and b.kind == "dict" and isinstance(a, VConc) and a.py == {}):
+            d = a if isinstance(a, VObj) else b            # d == {}: the dictionary has no key
+            rec = st.objs[d.oid]
+            if rec.get("lazy"):
+                return True
+            if rec.get("pure"):
+                if any(isinstance(v, tuple) for _, v in rec["pyitems"]):
+                    raise Unsupported("emptiness of a record with conditional entries")
+                return len(rec["pyitems"]) == 0
+            k = z3.Const(fresh_name("ek"), rec["dom"].sort().domain())
+            return FA([k], z3.Not(z3.Select(rec["dom"], k)), patterns=[z3.Select(rec["dom"], k)])
         if isinstance(a, VObj) and isinstance(b, VObj):
             if identity:
                 return a.oid == b.oid
